@@ -1360,6 +1360,11 @@ class Interp:
                 # CPython converts the int operand to a double first: OverflowError beyond the double range
                 lim = z3.IntVal(2 ** 1024)
                 self.guard(mk_bool(z3.And(v.z < lim, v.z > -lim)), "OverflowError", node, "int too large to convert to float")
+        # x + 0, 0 + x and x - 0 are exact (IEEE; the sign of a zero is not modelled)
+        if t in (ast.Add, ast.Sub) and isinstance(b, (int, float)) and not isinstance(b, bool) and b == 0 and is_floatlike(a):
+            return a if not isinstance(a, float) else float(a)
+        if t is ast.Add and isinstance(a, (int, float)) and not isinstance(a, bool) and a == 0 and is_floatlike(b):
+            return b if not isinstance(b, float) else float(b)
         x, y = zr(a), zr(b)
         piv = [p for p in (self.int_term(a), self.int_term(b)) if p is not None]
         piv = [p for p in piv if not self.path.feasible(z3.Not(z3.And(p <= TWO53, p >= -TWO53)))]
